@@ -35,7 +35,9 @@ RULE = (
     "modes, with and without prepend_length —, through the Renderer object route (3000 scripts per quick run: [reserve] add_question/"
     "add_rrset [release_reserved] add_opt(opt, pad, opt_size, tsig_size) write_header add_tsig/add_multi_tsig, key names that share a "
     "suffix with or equal a rendered name, exact and inexact caller-supplied sizes, fillers tuned so that the unpadded size is already "
-    "block-aligned in about half of the padded scripts, tight and generous max_size), and through step-by-step Renderer traces "
+    "block-aligned in about half of the padded scripts, tight and generous max_size; a reserve() that fails first, release_reserved() "
+    "twice, reserve(negative), an add that goes back to an earlier section, a relative name inside RDATA without origin), limit sweeps "
+    "with padding on, an RDATA longer than 65535 octets, and through step-by-step Renderer traces "
     "that keep adding after a TooBig; a case is non-trivial if its key (kind + content) is new"
 )
 TRUSTED_BASE = C03.TRUSTED_BASE
@@ -917,7 +919,8 @@ LEVEL = {
             "added iff the first dropped set lies before ADDITIONAL; truncation_counts_opt_tsig — truncation never drops the OPT or TSIG record "
             "and the header counts of the truncated result are exactly the records present (ARCOUNT counts OPT and TSIG); result_parses — "
             "that result parses to that prefix, padding option and TSIG included (class of C03.parse_render_partial: absolute names, not an "
-            "UPDATE); padding_multiple — with padding the length, TSIG included, is a multiple of the block for every "
+            "UPDATE); result_parses_origin — the same for messages with an origin and relative names, parsed with that origin: the prefix after "
+            "relativisation; padding_multiple — with padding the length, TSIG included, is a multiple of the block for every "
             "message, limit and mode (the TSIG is rendered against a fresh compression table, so its reserve is exact: repaired D07); "
             "renderer_padding_multiple — the same through the Renderer object (add_opt with the exact opt_size/tsig_size, write_header, "
             "add_tsig/add_multi_tsig = _write_tsig): the signed message is a multiple of the block in any renderer state, aligned or not, "
@@ -927,7 +930,8 @@ LEVEL = {
             "block, ≤ max_size, from_wire with the keyring verifies the TSIG, records/OPT/PADDING present) and step-by-step Renderer traces.",
     "note": "Trusted: Lean kernel + propext/Classical.choice/Quot.sound; the statements in lean/Props/C08.lean; the correspondence "
             "harness and its generators; harness/extract_C03.py. The TSIG MAC is abstract and fixed-size. Tie-only: result_parses for "
-            "messages with an origin or of opcode UPDATE (the C03 theorems for those classes are stated for untruncated renderings).",
+            "messages of opcode UPDATE (C03.update_forms is stated for untruncated renderings); argument checks (negative reserve / pad), "
+            "an exception other than TooBig in the middle of an add (known finding: partial record left behind) — direct oracle.",
     "technique": "Lean 4 proof (invariant over the rendering fold; exact-rollback lemma; prefix characterisation) + "
                  "model-vs-implementation correspondence at every limit",
     "design_ref": "DESIGN.md §7 C08",
